@@ -153,7 +153,7 @@ def tlc_run(name, root, consts, inv=(), prop=(), view=None, constraint=None, act
 # replaying rows on the code
 # ---------------------------------------------------------------------------------------------
 def replay_rows(binpath, rows_file, ptype, coll="map", ctx="plain", max_mismatch=40, timeout=900, extra=(), cmdname="replay"):
-    tagbase = f"{os.path.basename(os.path.dirname(rows_file))}_{ptype}_{coll}_{ctx.replace(':','')}"
+    tagbase = f"{os.path.basename(os.path.dirname(rows_file))}_{ptype}_{coll}_{ctx.replace(':','')}" + ("_rel" if "release" in extra else "")
     out = os.path.join(WORK, f"rep_{tagbase}.json")
     side = os.path.join(WORK, f"side_{tagbase}.ndjson")
     cmd = [binpath, cmdname, "--type", ptype, "--coll", coll, "--ctx", ctx, "--rows", rows_file,
@@ -175,6 +175,7 @@ def replay_rows(binpath, rows_file, ptype, coll="map", ctx="plain", max_mismatch
         raise ToolError(f"harness replay failed rc={p.returncode}: {p.stderr[-2000:]}")
     r = json.load(open(out))
     r["ctx"] = ctx
+    r["build_profile"] = "release" if "release" in extra else "dev"
     r["wall"] = round(time.time() - t0, 1)
     os.remove(out)
     # states the path replay could not reproduce: their observers are judged observation-relatively by TLC
@@ -546,6 +547,17 @@ def owners(mm):
         return {"C18"}
     if act in PAIR_OWNER:
         return pair_owners(mm)
+    # a callback panicked (injected fault): whatever is wrong afterwards is C20's concern as well
+    faulty = (act == "Retain" and mm["e"].get("panicAt", 0) > 0) or \
+             (act == "Entry" and any(o.get("v") == -2 for o in mm["e"].get("ops", [])))
+    if faulty and kind != "diverged":
+        return owners_plain(mm) | {"C20"}
+    return owners_plain(mm)
+
+
+def owners_plain(mm):
+    kind = mm["kind"]
+    act = mm["e"].get("a", "?")
     if kind == "pre":
         # the path to the row's state did not reproduce it: blame by what differs
         try:
